@@ -66,7 +66,7 @@ PROPS = {
     "C12": {"runs": lambda tier: [run("langid", ops=["li_cmp", "li_eq_str", "li_routes"], features=["likely"]), run("locale", ops=["loc_cmp"], features=["likely"])],
             "rule": LOCALE_RULE + " || " + LANGID_RULE + " || li_routes: the same logical value built along seven routes (parse, from_parts, field assignment from default(), re-parse of to_string, "
                     "overwriting every field of another identifier with reversed+duplicated variants, language.clear()+reassign, set_variants(&[])+set) compared pairwise with ==, cmp, hash, to_string, Debug"},
-    "C13": {"runs": lambda tier: [run("locale", ops=["both", "loc_conv"], features=["likely"])], "rule": LOCALE_RULE},
+    "C13": {"runs": lambda tier: [run("locale", ops=["both", "loc_conv", "loc_prefix"], features=["likely"])], "rule": LOCALE_RULE},
     "C20": {
         "runs": lambda tier: [dict(run("c20", features=f), digest=True) for f in
                               ([[], ["likely"], ["likely", "macros", "serde"]] if tier != "thorough" else
